@@ -34,6 +34,31 @@ def decfra_cases(c, thorough):
     return ("decfra", p), len(cases)
 
 
+def drive_contained(trace, c):
+    """The entry points under test may abort the process (dev profile: constructing an invalid char aborts).  The driver
+    names every unit of work in a progress file before running it; an abort becomes a `cells` event with r = "abort"."""
+    progress = trace + ".progress"
+    start, aborts = 0, 0
+    while True:
+        args = ["c10", "--out", trace, "--seed", c.seed, "--tier", c.tier, "--progress", progress, "--start", start] + (["--append", 1] if start else [])
+        rc, err, _ = vlib.drive(args, timeout=1200, allow_fail=True)
+        if rc == 0:
+            break
+        try:
+            pr = json.load(open(progress))
+        except Exception:
+            raise vlib.ToolError("c10 driver died without a progress record: " + err[-800:])
+        if pr.get("done"):
+            break
+        with open(trace, "a") as f:
+            f.write(json.dumps({"ev": "cells", "src": pr.get("src", "?"), "what": pr.get("what", "?"), "r": "abort", "codes": [], "site": vlib.classify_stderr(err)}, separators=(",", ":")) + "\n")
+        aborts += 1
+        start = int(pr["k"])
+        if aborts > 100:
+            raise vlib.ToolError("more than 100 aborts in the c10 driver")
+    c.extra["worker_aborts"] = aborts
+
+
 def run():
     c = Check("C10")
     thorough = c.tier == "thorough"
@@ -46,8 +71,7 @@ def run():
         shards.append((f"r{i}", termlib.gen_cases(c.workdir, f"r{i}", ["--gen", 1500 if thorough else 500, "--gen-from", 2_000_000 + i * 1500, "--seed", c.seed, "--full"])))
     traces, crashes = termlib.run_shards(c, shards, procs=6)
     trace = os.path.join(c.workdir, "unicode.ndjson")
-    args = ["c10", "--out", trace, "--seed", c.seed, "--tier", c.tier]
-    vlib.drive(args, timeout=1200)
+    drive_contained(trace, c)
     c.validate("spec/codec", "Trace_Unicode", "Trace_Unicode.cfg", [trace], key, procs=1)
     c.sample_from(trace, 2, skip_reset=False)
     c.extra["decfra_cases"] = n
